@@ -70,7 +70,66 @@ def replay_setup(d):
     return False, 'row names %r are the repaired printed names; cells equal the printed numbers and name / index addressing agree at %d result time(s)' % (want, len(times))
 
 
+def replay_fileskip(d):
+    """The shipped listing (model's digits / signs substituted) is written to a real temporary file - under
+    the alias name when one is given - and read by the real t2listing with the given skip_tables; at every
+    result time, reached by index = k and by index = k - n, every exposed table is compared with the numbers
+    printed in the file for that time (plain-text scan of c06_common / replay_C06._Printed)."""
+    import shutil, signal, tempfile
+    import c06_common as c6
+    import replay_C06 as r6
+    import t2listing
+    repo = os.environ.get('PYTOUGH_REPO', '/repo')
+    path = os.path.join(repo, d['file'])
+    raw = cc.read_lines(path)
+    lines = c6.apply_substitutions(raw, d.get('substitutions') or {})
+    fam = cc.family_of(lines)
+    skip = list(d.get('skip_tables') or [])
+    tmp = tempfile.mkdtemp(prefix='c05replay')
+    def alarm(sig, frm): raise c6.NonTermination('no return within 30 s')
+    old = signal.signal(signal.SIGALRM, alarm)
+    try:
+        p2 = os.path.join(tmp, d.get('alias') or os.path.basename(path))
+        with open(p2, 'wb') as fh: fh.write(''.join(lines).encode('latin-1'))
+        head = '%s%s, skip_tables=%r: ' % (d['file'], ' written as %s' % d['alias'] if d.get('alias') else '', skip)
+        signal.alarm(30)
+        try:
+            lst = t2listing.t2listing(p2, skip_tables=list(skip))
+        except c6.NonTermination as ex: return True, head + 'open:terminates: t2listing() does not return (%s)' % ex
+        except Exception as ex: return True, head + 'open:no-exception: t2listing() raised %s: %s' % (type(ex).__name__, str(ex)[:100])
+        finally: signal.alarm(0)
+        sets = c6.scan_sets(lines, fam)
+        fullk = [i for i, s_ in enumerate(sets) if not s_['short']]
+        n = len(fullk)
+        # tables the file prints at its first result time, by the text scan: compare with what the reader exposes
+        P = r6._Printed(lines, fam, lst)
+        for k in range(n):
+            for kk in (k, k - n):
+                signal.alarm(30)
+                try: lst.index = kk
+                except c6.NonTermination as ex: return True, head + 'index:terminates: index = %d does not return (%s)' % (kk, ex)
+                except Exception as ex: return True, head + 'index:no-exception: index = %d raised %s: %s' % (kk, type(ex).__name__, str(ex)[:100])
+                finally: signal.alarm(0)
+                if lst.index != k or float(lst.time) != sets[fullk[k]]['time']:
+                    return True, head + 'index-time: after index = %d the reader reports index %r time %r (file: %d, %r)' % (kk, lst.index, lst.time, k, sets[fullk[k]]['time'])
+                for tn in lst._tablenames:
+                    tab = lst._table[tn]
+                    for r in range(tab.num_rows):
+                        for col in tab.column_name:
+                            pv = P.value(tn, r, fullk[k], col)
+                            if pv in ('n/a', None): continue
+                            v = tab[r][col]
+                            if not (v == pv):
+                                return True, head + '%sprinted-value: index = %d: table %s row %d (%r) column %s shows %r, the file prints %r at that time' % (
+                                    'negative-index:' if kk < 0 else '', kk, tn, r, tab.row_name[r], col, v, pv)
+        return False, head + 'every exposed table shows the printed numbers at all %d result times, by positive and negative index' % n
+    finally:
+        signal.alarm(0); signal.signal(signal.SIGALRM, old)
+        shutil.rmtree(tmp, ignore_errors=True)
+
+
 def replay(d):
+    if d.get('mode') == 'fileskip': return replay_fileskip(d)
     if d.get('mode') == 'setup': return replay_setup(d)
     import t2listing
     repo = os.environ.get('PYTOUGH_REPO', '/repo')
@@ -134,6 +193,12 @@ def replay(d):
         by_name, by_index = table[key], table[k]
         if by_name is None or by_name['key'] != key or by_index['key'] != allkeys[k]:
             return True, 'table[name] / table[index] do not return row %d' % k
+        import numpy as _np
+        try: by_np = table[_np.int64(k)]
+        except Exception as ex:
+            return True, 'addressing:numpy-index: table[numpy.int64(%d)] raised %s: %s (table[%d] works)' % (k, type(ex).__name__, ex, k)
+        if by_np is None or by_np['key'] != allkeys[k] or any(not (by_np[c] == by_index[c]) for c in cols):
+            return True, 'addressing:numpy-index: table[numpy.int64(%d)] is not the row table[%d] returns' % (k, k)
         if any(t['end'] != lends[j] for j, t in enumerate(toks) if j < len(lends)) or len(toks) > ncols:
             if len(toks) > ncols: return True, 'row has %d numbers, header %d columns' % (len(toks), ncols)
             continue
